@@ -101,7 +101,7 @@ class PettingZooVecEnv:
             for possible_agent in self.agents:
                 action = (
                     int(actions[possible_agent][env_idx])
-                    if np.isscalar(actions[possible_agent][env_idx])
+                    if isinstance(actions[possible_agent][env_idx], (int, np.integer))
                     else actions[possible_agent][env_idx]
                 )
                 passed_actions_list[env_idx].append(action)
